@@ -161,7 +161,7 @@ def run_names(case) -> CaseResult:
 
 # ------------------------------------------------------------------ (c) ops
 
-OPS_C = list(pb.CONSTRAINED) + ["silu_glu", "sdpa"]
+OPS_C = list(pb.CONSTRAINED) + ["silu_glu", "sdpa", "add"]  # (add has the most branches: weighted twice)
 SCALE_ROLES = {"gelu": ["input"], "silu": ["input"], "softmax": ["input"], "linear": ["input"], "linear_readout": ["input"],
                "conv1d": ["input"], "matmul": ["left", "right"], "add": ["input", "other"]}
 
@@ -208,7 +208,13 @@ def run_ops(case) -> CaseResult:
     if op == "add" and "scalar" in (case["a"], case["b"]):
         return res
     if any(r not in P0.s_bwd for r in roles):
+        # (a one-element operand, a frozen operand: no scalar can be fitted) - the true-derivative clause still applies
         res.labels.append("grad-not-fitable")
+        for name in [n for n in pb.CONSTRAINED[op] if n not in (None, "")]:
+            ok = gradcheck_inputs(dict(case, constraint=name), set(roles))
+            if ok is not True:
+                res.fail(f"C05.gradcheck:{op}:{name}", f"gradients of the constrained inputs are not the true derivative: {ok}")
+        res.nontrivial = True
         return res
     ideal = [P0.s_fwd[0]] + [P0.s_bwd[r][0] for r in roles]
     other0 = {r: v[0] for r, v in P0.s_bwd.items() if r not in roles}
